@@ -92,6 +92,7 @@ type MPerson struct {
 	BadgeNo   string
 	HasPX     bool
 	Memo      string
+	Sponsor   *string // child-store field (staff or px): a group
 }
 
 type pair struct{ P, G string }
@@ -247,6 +248,7 @@ type PersonSnap struct {
 	Salary    int64          `json:"salary,omitempty"`
 	Rate      float64        `json:"rate,omitempty"`
 	Hired     int64          `json:"hired,omitempty"`
+	Sponsor   *string        `json:"sponsor,omitempty"`
 }
 
 func jsonOf(v any) string {
@@ -265,8 +267,12 @@ func (m *Model) personSnap(p *MPerson, view string) string {
 		s.Level, s.BadgeNo = p.Level, p.BadgeNo
 		salary, rate, hired := staffDerived(p.Level)
 		s.Salary, s.Rate, s.Hired = salary, rate, hired.UnixNano()
+		s.Sponsor = p.Sponsor
 	case StPX:
 		s.Memo = p.Memo
+		if p.HasPX {
+			s.Sponsor = p.Sponsor
+		}
 	}
 	return jsonOf(s)
 }
@@ -545,6 +551,9 @@ func (m *Model) applyCreate(op Op, now int64) Outcome {
 		if op.S == StPX && op.Memo == "" && m.PxMode == 1 {
 			a.add("memo-empty", EcAny)
 		}
+		if (op.S == StStaff || op.S == StPX) && strOr(op.Ref) != "" && !m.Groups[*op.Ref] {
+			a.add("sponsor-missing", EcNotFound)
+		}
 		if a.bad() {
 			return a.out()
 		}
@@ -556,9 +565,11 @@ func (m *Model) applyCreate(op Op, now int64) Outcome {
 		}
 		if op.S == StStaff {
 			p.HasStaff, p.Level, p.BadgeNo = true, op.Level, op.BadgeNo
+			p.Sponsor = cloneStrP(op.Ref)
 		}
 		if op.S == StPX {
 			p.HasPX, p.Memo = true, op.Memo
+			p.Sponsor = cloneStrP(op.Ref)
 		}
 		m.People[id] = p
 		for _, g := range op.Groups {
@@ -704,6 +715,9 @@ func (m *Model) applyUpdate(op Op, now int64) Outcome {
 				n.Memo = op.Memo
 			}
 		}
+		if (op.S == StStaff || op.S == StPX) && op.updates("sponsor") {
+			n.Sponsor = cloneStrP(op.Ref)
+		}
 		n.UpdatedAt = now
 		var a acc
 		rejAdd := a.add
@@ -770,6 +784,9 @@ func (m *Model) applyUpdate(op Op, now int64) Outcome {
 					}
 				}
 			}
+		}
+		if strOr(n.Sponsor) != strOr(p.Sponsor) && strOr(n.Sponsor) != "" && !m.Groups[*n.Sponsor] {
+			rejAdd("sponsor-missing", EcNotFound)
 		}
 		if via == StPX && n.Memo != p.Memo && n.Memo != "" && m.PxMode != 2 {
 			for oid, o := range m.People {
@@ -1027,6 +1044,11 @@ func (m *Model) applyDelete(op Op) Outcome {
 	case StGroups:
 		if !m.Groups[id] {
 			return reject("absent", EcNotFound)
+		}
+		for _, p := range m.People {
+			if (p.HasStaff || p.HasPX) && p.Sponsor != nil && *p.Sponsor == id {
+				return reject("sponsor-referenced", EcRefExists) // restrict, from whichever child store the referrer lives in
+			}
 		}
 		out := Outcome{OK: true}
 		var mids []string
